@@ -239,7 +239,23 @@ def parse(tops, parser):
 MATERIALISERS = ('api', 'html.parser', 'lxml', 'html5lib', 'xml', 'api-xml')
 
 
+GRAFT_XML = '<Item kind="x"><Sub>t</Sub><item kind="X"/></Item>'
+GRAFT_HTML = '<div title="x"><p>t</p><input type="checkbox" checked><span title="X"></span><a href="u">l</a></div>'
+
+
 def materialise(tops, how):
+    """how: api | api-xml | html.parser | lxml | html5lib | xml, optionally followed by '+graft': an element made by the
+    *other* kind of builder (XML-made into an HTML tree, html.parser-made into an XML tree) is moved into the first element of
+    the tree - legal bs4 usage; the kind of a document is that of the object at the top of the tree."""
+    if how.endswith('+graft'):
+        soup = materialise(tops, how[:-6])
+        hosts = [e for e in soup.descendants if isinstance(e, bs4.Tag) and e.name not in ('style', 'script', 'iframe', 'textarea')]
+        if hosts:
+            other = BeautifulSoup(GRAFT_HTML, 'html.parser') if is_xml_top(soup) else BeautifulSoup(GRAFT_XML, 'xml')
+            frag = [c for c in other.contents if isinstance(c, bs4.Tag)][0].extract()
+            host = hosts[len(hosts) // 2]
+            host.insert(len(host.contents) // 2, frag)
+        return soup
     if how == 'api':
         return build_api(tops, 'html.parser')
     if how == 'api-xml':
